@@ -221,6 +221,12 @@ def scenarios(tier):
             files = [{"base": "args", "m1": "args", "m2": None}, {"base": "args", "m1": "nocmd", "m2": "args"}]
             out.append({"targets": 2, "commands": ["build", "test"], "files": files, "argmaps_opt": ["m1", "m2"], "no_base": False,
                         "args": None, "argdir": argdir, "cmdsrc": cmdsrc, "vocab": plain, "foreign": True})
+    # (2g) command names with a dot that share their stem with another command (build / build.release)
+    for cmdsrc in ("default", "custompath", "defpath", "defempty"):
+        for cmds in (["build", "build.release"], ["build.release"]):
+            files = [{"base": "args", "m1": "args", "m2": None}] * 2
+            out.append({"targets": 2, "commands": cmds, "files": files, "argmaps_opt": ["m1"], "no_base": False,
+                        "args": None, "argdir": "default", "cmdsrc": cmdsrc, "vocab": plain})
     # (2f) a definition path that does not exist while a same-stem file sits in the default directory
     for n in (1, 2):
         for cmds in (["build"], ["build", "test"]):
